@@ -19,6 +19,10 @@ theorem table_all_admissible : table.all (fun d => d.admissible table) = true :=
 theorem table_wf : ∀ d ∈ table, d.admissible table = true :=
   List.all_eq_true.mp table_all_admissible
 
+/-- every group class hands slice keys to its member container ("retrievable by … slice"): the hypothesis of
+`Cherab.Props.C15.getitem_slice`.  Generated from `__getitem__` of base.py / bolometry.py. -/
+theorem classes_accept_slices : ∀ c ∈ classes, c.sliceKeys = true := by decide
+
 /-- the names with a documented shape of their own -/
 def specialNames : List String := ["names", "pipelines", "targets", "observers", "sight_lines", "foil_detectors"]
 
